@@ -97,6 +97,10 @@ func RefMailboxPlain(naming, addr string) (name string, ok bool) {
 	return "", false
 }
 
+// ListDomains is what the policy lists are drawn from: the vocabulary, weighted, plus
+// address literals (which a list may name like any other domain).
+var ListDomains = append(append(append([]string{}, Domains...), Domains...), "[1.2.3.4]", "[IPv6:::1]", "[IPv6:2001:db8::1]")
+
 // PolicyCfgGen draws accept/store policy switches and lists over the shared vocabulary with
 // random letter case.
 func PolicyCfgGen(base Cfg) *rapid.Generator[Cfg] {
@@ -106,7 +110,7 @@ func PolicyCfgGen(base Cfg) *rapid.Generator[Cfg] {
 			n := rapid.IntRange(0, 3).Draw(t, label+"n")
 			var l []string
 			for i := 0; i < n; i++ {
-				d := rapid.SampledFrom(Domains).Draw(t, label)
+				d := rapid.SampledFrom(ListDomains).Draw(t, label)
 				if rapid.Bool().Draw(t, label+"case") {
 					d = ReCase(d, rapid.Uint64().Draw(t, label+"mask"))
 				}
